@@ -173,12 +173,25 @@ static void judge(Ctx& ctx, const Case& c, bool from_replay) {
   }
 
   ctx.begin(c);
+  // loading route: the same inputs reach the clipper directly, through ReuseableDataContainer64 objects (which must
+  // outlive Execute), or through a mixture, in different orders - the cut pieces may not depend on it
+  const int route = (int)c.geti("route", 0);
+  ReuseableDataContainer64 rd_closed, rd_open, rd_all;
+  rd_closed.AddPaths(S, PathType::Subject, false); rd_closed.AddPaths(C, PathType::Clip, false);
+  rd_open.AddPaths(Oraw, PathType::Subject, true);
+  rd_all.AddPaths(S, PathType::Subject, false); rd_all.AddPaths(Oraw, PathType::Subject, true); rd_all.AddPaths(C, PathType::Clip, false);
   auto setup = [&](Clipper64& k, bool with_open) {
     k.PreserveCollinear(pc); k.ReverseSolution(rev);
-    k.AddSubject(S);
-    if (with_open) k.AddOpenSubject(Oraw);
-    k.AddClip(C);
+    switch (with_open ? route : 0) {
+      case 1: k.AddOpenSubject(Oraw); k.AddReuseableData(rd_closed); break;          // open direct, then a container without open paths
+      case 2: k.AddReuseableData(rd_open); k.AddReuseableData(rd_closed); break;     // open container, then closed container
+      case 3: k.AddReuseableData(rd_closed); k.AddOpenSubject(Oraw); break;          // closed container, then open direct
+      case 4: k.AddReuseableData(rd_all); break;                                     // one container with everything
+      case 5: k.AddClip(C); k.AddOpenSubject(Oraw); k.AddSubject(S); break;          // direct, other order
+      default: k.AddSubject(S); if (with_open) k.AddOpenSubject(Oraw); k.AddClip(C); break;
+    }
   };
+  ctx.count("load_route_" + std::to_string(route));
   Paths64 solc, solo, sol0, solo_t, solc_t;
   bool ok1, ok2, ok3;
   { Clipper64 k; setup(k, true); ok1 = k.Execute((ClipType)ct, (FillRule)fr, solc, solo); }
@@ -488,6 +501,7 @@ void vf_case(Ctx& ctx, uint64_t i) {
   c.p64["S"] = S; c.p64["C"] = C; c.p64["O"] = O;
   c.seti("ct", 1 + (combo & 3)); c.seti("fr", (combo >> 2) & 3);
   c.seti("pc", (combo >> 4) & 1); c.seti("rev", (combo >> 5) & 1);
+  { static const int kRoute[] = { 0, 0, 0, 1, 2, 3, 4, 5 }; c.seti("route", kRoute[(i / 64 + i / 7) % 8]); }
   c.seti("mode", mode); c.seti("oo_relaxed", relax); c.seti("mag", magexp); c.seti("shape", sc.shape); c.set("kinds", kinds);
   ctx.count("mag_2^" + std::to_string(magexp));
   ctx.count("shape_" + std::to_string(sc.shape));
